@@ -188,12 +188,15 @@ def wRemoveAll (p : TPatT) : Option Str :=
       "\n;\nDELETE { GRAPH ?G { ".toList ++ tt ++ " } } WHERE { GRAPH ?G { ".toList ++ tt ++ " } } ".toList)
   | none => none
 
+/-- `"PREFIX %s: <%s>" % (k, v)` -/
+def prefixLine (kv : Str × Str) : Str :=
+  'P' :: 'R' :: 'E' :: 'F' :: 'I' :: 'X' :: ' ' :: (kv.1 ++ ':' :: ' ' :: '<' :: (kv.2 ++ ['>']))
+
 /-- `_inject_prefixes`: `PREFIX k: <v>` lines, an empty line, the text (nothing when no bindings) -/
 def wPrologue (ns : List (Str × Str)) : Str :=
   match ns with
   | [] => []
-  | _ => joinWith ['\n'] (ns.map (fun kv => "PREFIX ".toList ++ kv.1 ++ ": <".toList ++ kv.2 ++ ['>'])) ++
-      ['\n', '\n']
+  | _ => joinWith ['\n'] (ns.map prefixLine) ++ ['\n', '\n']
 
 /-- `remove_graph` / `add_graph` through `update()` -/
 def wDrop (ns : List (Str × Str)) : Option Str → Option Str
@@ -614,7 +617,7 @@ def readOps : Nat → Nat → Str → Option (List TUOp)
       match sym ';' r with
       | some r1 =>
         if ws r1 = [] then some [u]
-        else (readOps n fuel r1).map (u :: ·)
+        else (readOps n fuel (ws r1)).map (u :: ·)
       | none => if ws r = [] then some [u] else none
 
 /-- the update operations a request text denotes -/
